@@ -275,7 +275,11 @@ def k4_walk(ctx):
         if a2[0] != 'call' or not re.search(r'str.*::replace$', a2[1]):
             raise AnchorLost('convert: bridge basic_execute argument shape changed')
         sel = {}
-        for a, conds in alternatives(cv, a2[2][0]):
+        from ..facts import resolve_elements
+        src_ = a2[2][0]
+        if not any(x[0] == 'field' and x[2] in ('to_source_calculation', 'to_target_calculation') for x in walk(src_)):
+            src_ = resolve_elements(ctx.facts, src_)         # the code read through find_map(|entry| ..) / a small struct of the entry
+        for a, conds in alternatives(cv, src_):
             fs = [x[2] for x in walk(a) if x[0] == 'field' and x[2] in ('to_source_calculation', 'to_target_calculation')]
             rc = [cond_str(d, v) for d, v in resolve_conds(cv, conds)]
             eqs = [c for c in rc if 'source.name' in c and 'group_name' in c and 'eq(' in c]
